@@ -346,6 +346,15 @@ def run_case(w, prog, db, dbname, dialect, src=None, want_rq=True, user_names=No
                 o.symptoms.append(("C05", "rq_frame_count", "rq frame %r result %r" % (frame, o.cols)))
             elif any(f is not None and f != a for f, a in zip(frame, act)):
                 o.symptoms.append(("C05", "rq_frame_names", "rq frame %r result %r" % (frame, act)))
+    if static:
+        # root-cause tag (EXCLUDE dialects): a column that the program excluded by name and that no later step
+        # re-introduces is in the result - the lost-exclusion defect (KF-C05-10) is at work, whatever else differs
+        excl = excluded_names(prog)
+        if excl and any(x in excl and act.count(x) > exp.count(x) for x in set(act)):
+            o.symptoms = [(p_, (s_ + "+excluded_present") if p_ == "C05" and "+" not in s_ and s_ != "excluded_columns_present" else s_, d_) for (p_, s_, d_) in o.symptoms]
+    if frame == [] and len(o.cols) == 1:
+        # a relation without columns cannot be written in SQL: the compiler emits one placeholder column (SELECT NULL)
+        o.symptoms = [(p_, "zero_column_frame" if p_ == "C05" and s_ in ("rq_frame_count", "column_count") else s_, d_) for (p_, s_, d_) in o.symptoms]
     # ---- C01 / C03: rows
     if not aligned and prefix_rows is not None:
         aligned, rows = True, prefix_rows
